@@ -277,6 +277,18 @@ def run(ctx: Ctx, tier: str) -> Result:
                 if any("plugins" in x for x in tgt):
                     res.fail(Finding("C14.D", f_.qname, c_, f_.loc(c_), "a plugin's shutdown modifies the list of plugins (`%s`) that Deep.shutdown is iterating: the plugin after it is "
                                      "skipped and never shut down" % norm(c_)[:60]))
+    # every plugin is visited: a loop by index covers 0 .. len-1 (`range(len(x))`, or downwards `range(len(x) - 1, -1, -1)`)
+    for lp_ in t.nodes_in(shutdown, ast.For):
+        it_ = lp_.iter
+        if isinstance(it_, ast.Call) and isinstance(it_.func, ast.Name) and it_.func.id == "range":
+            a_ = [norm(x) for x in it_.args]
+            full = (len(a_) == 1 and a_[0].startswith("len(")) or (len(a_) == 2 and a_[0] == "0" and a_[1].startswith("len(")) or \
+                (len(a_) == 3 and a_[0].startswith("len(") and a_[0].endswith(" - 1") and a_[1] == "-1" and a_[2] == "-1")
+            if full:
+                res.ok("C14.D", {"index loop covers every element": norm(it_)})
+            else:
+                res.fail(Finding("C14.D", shutdown.qname, it_, shutdown.loc(it_), "the loop `for %s in %s` does not visit every index of the collection (an end is left out): a plugin "
+                                 "is never shut down" % (norm(lp_.target), norm(it_)[:50])))
     # ... nor by shutdown itself while it walks it
     for lp_ in t.nodes_in(shutdown, ast.For):
         it_txt = norm(lp_.iter)
